@@ -94,7 +94,7 @@ Definition current (ops : list op) : sets := current_from [] ops.
 (** ** "loaded once into an empty instance" *)
 
 Definition fresh_ops (S : sets) : list op := map (fun t => Add (fst t) (snd t)) S.
-Definition fresh (S : sets) : repo := run (fresh_ops S).
+Definition fresh (fx : fixes) (S : sets) : repo := run fx (fresh_ops S).
 
 (** ** Histories the property talks about: a rule set is created only when no
     set of that source exists (a second creation is not a creation). *)
